@@ -1721,6 +1721,8 @@ func (e *btEnv) scenarioMapCopy(kind int) {
 		n, mode, valProf = 1+e.rng.Intn(int(e.T)/(2*perElem)+1), 2+e.rng.Intn(2), 0
 	case 4: // one big first-level group: external collision group
 		n, mode, valProf = int(e.T)/20+e.rng.Intn(30), 5, 0
+	case 6: // inline collision groups holding a REFERENCE (an externalised value inside a group)
+		n, mode, valProf = 2+e.rng.Intn(int(e.T)/(3*perElem)+1), 2+e.rng.Intn(3), 0
 	default: // few levels
 		n, mode, valProf = 1+e.rng.Intn(int(e.T)/(2*perElem)+1), 4, 0
 	}
@@ -1736,6 +1738,19 @@ func (e *btEnv) scenarioMapCopy(kind int) {
 		if _, err := src0.m.Set(hx.CompareKey, hx.HashInput, k, v); err == nil {
 			src0.kvs, _ = e.readMap(src0.m)
 		}
+	}
+	if kind == 6 && len(src0.kvs) > 0 {
+		// overwrite one or two existing (colliding) keys with a value too large to inline
+		for j := 1 + e.rng.Intn(2); j > 0; j-- {
+			k := src0.kvs[e.rng.Intn(len(src0.kvs))].k
+			v := e.tv(e.maxElem + 5)
+			if old, err := src0.m.Set(hx.CompareKey, hx.HashInput, k, v); err == nil {
+				if id, ok := old.(atree.SlabIDStorable); ok {
+					_ = e.rec.Remove(atree.SlabID(id))
+				}
+			}
+		}
+		src0.kvs, _ = e.readMap(src0.m)
 	}
 	// the traced source is the bulk-built twin of src0 (known to the model)
 	src := e.mapBatch(src0.kvs, src0.b, btNewBuilderLike(src0.b), src0.L, src0.m.Seed(), addrN, ty, "")
@@ -2023,8 +2038,8 @@ func batchStream(cfg *Config) *hx.Stats {
 		for i := 0; i < 12; i++ {
 			e.scenarioMapReject(i%6, rng.Intn(5))
 		}
-		for i := 0; i < 14; i++ {
-			e.scenarioMapCopy(rng.Intn(6))
+		for i := 0; i < 16; i++ {
+			e.scenarioMapCopy(rng.Intn(7))
 		}
 		for i := 0; i < 4; i++ {
 			e.scenarioMapCopyInlined(i%2 == 1)
